@@ -1,4 +1,4 @@
-import TRV.Proofs.CrossProto
+import TRV.Proofs.Isolation6
 /-!
 # C11 — Concurrent traceroutes are isolated; identifier ranges never overlap
 
@@ -145,6 +145,65 @@ theorem c11_cross_protocol_genuine {I : IcmpCfg} {U : UdpCfg} {C : TcpCfg} {S : 
 theorem c11_isolation_udp4_tcp {U : UdpCfg} {C : TcpCfg} {sU sC : List Sent} {t t' : Nat} {a a' : Bytes} {d d' : Bool} {p : Bytes}
     (hC : genuineTcp C sC t a d p = true) :
     genuineUdp4 U sU t' a' d' p = false := isolation_udp4_tcp hC
+
+/-! ### IPv6, and TCP SYN next to SACK -/
+
+/-- ICMPv6: the echo identifiers differ, or the targets differ -/
+theorem c11_isolation_icmp6 {A B : IcmpCfg} {sA sB : List Sent} {t t' : Nat} {a a' : Bytes} {d d' : Bool} {p : Bytes}
+    (hd : FlowsDistinctIcmp A B) (hA : genuineIcmp6 A sA t a d p = true) :
+    genuineIcmp6 B sB t' a' d' p = false := isolation_icmp6 hd hA
+
+/-- UDP over IPv6: as over IPv4 -/
+theorem c11_isolation_udp6 {A B : UdpCfg} {sA sB : List Sent} {t t' : Nat} {a a' : Bytes} {d d' : Bool} {p : Bytes}
+    (hd : FlowsDistinctUdp A B) (hA : genuineUdp6 A sA t a d p = true) :
+    genuineUdp6 B sB t' a' d' p = false := isolation_udp6 hd hA
+
+/-- ICMPv6 vs UDPv6: no hypothesis on the flows (quoted next header 58 vs 17; an echo reply is not
+    an error message) -/
+theorem c11_cross_protocol_genuine6 {I : IcmpCfg} {U : UdpCfg} {sI sU : List Sent} {p : Bytes}
+    (t : Nat) (a : Bytes) (d : Bool) (t' : Nat) (a' : Bytes) (d' : Bool)
+    (h : genuineIcmp6 I sI t a d p = true) : genuineUdp6 U sU t' a' d' p = false := by
+  cases h' : genuineUdp6 U sU t' a' d' p with
+  | false => rfl
+  | true => exact (icmp6_udp6_excl (sig_icmp6 h) (sig_udp6 h')).elim
+
+/-- TCP SYN next to SACK (both protocol 6): under `FlowsDistinctTcpSack` — target addr:port
+    differs, or the local addr:port differs (what the OS gives two TCP sockets) and both are strict
+    or the SYN run's sequence numbers lie outside the SACK run's window — no packet is genuine for
+    both.  With `c11_cross_protocol_genuine` this covers every pair of IPv4 variants. -/
+theorem c11_isolation_tcp_sack {C : TcpCfg} {S : SackCfg} {sC sS : List Sent} {t t' : Nat} {a a' : Bytes} {d d' : Bool} {p : Bytes}
+    (hd : FlowsDistinctTcpSack C S sC) (hC : genuineTcp C sC t a d p = true) :
+    genuineSack S sS t' a' d' p = false := isolation_tcp_sack hd hC
+
+/-- Matcher level, IPv6 and TCP-SYN/SACK: one packet is accepted by at most one of two concurrent
+    runs. -/
+theorem c11_not_both_accepted_more {sI sI' : IcmpSt} {sU sU' : UdpSt} {sC : TcpSt} {sS : SackSt} {pkt : Bytes}
+    (hmin : 1 ≤ sI.cfg.min) (hmin' : 1 ≤ sI'.cfg.min)
+    (hiU : UdpInv sU) (hiU' : UdpInv sU') (h6 : sU.cfg.target.length ≠ 4) (h6' : sU'.cfg.target.length ≠ 4) :
+    ((∃ b0, u8 (pkt.take bufSize) 0 = some b0 ∧ b0 / 16 = 6) →
+      (FlowsDistinctIcmp sI.cfg sI'.cfg →
+        ¬ ((∃ t a d tm, icmpRecv sI pkt = .accept t a d tm) ∧ (∃ t a d tm, icmpRecv sI' pkt = .accept t a d tm))) ∧
+      (FlowsDistinctUdp sU.cfg sU'.cfg →
+        ¬ ((∃ t a d tm, udpRecv sU pkt = .accept t a d tm) ∧ (∃ t a d tm, udpRecv sU' pkt = .accept t a d tm))) ∧
+      ¬ ((∃ t a d tm, icmpRecv sI pkt = .accept t a d tm) ∧ (∃ t a d tm, udpRecv sU pkt = .accept t a d tm))) ∧
+    ((∃ b0, u8 (pkt.take bufSize) 0 = some b0 ∧ b0 / 16 = 4) →
+      FlowsDistinctTcpSack sC.cfg sS.cfg sC.sent →
+        ¬ ((∃ t a d tm, tcpRecv sC pkt = .accept t a d tm) ∧ (∃ t a d tm, sackRecv sS pkt = .accept t a d tm))) := by
+  refine ⟨fun hv6 => ⟨?_, ?_, ?_⟩, ?_⟩
+  · rintro hd ⟨⟨_, _, _, _, hA⟩, ⟨_, _, _, _, hB⟩⟩
+    have gA := (icmp6_sound hmin hA hv6).1
+    have gB := (icmp6_sound hmin' hB hv6).1
+    rw [isolation_icmp6 hd gA] at gB; cases gB
+  · rintro hd ⟨⟨_, _, _, _, hA⟩, ⟨_, _, _, _, hB⟩⟩
+    have gA := (udp6_sound hiU h6 hA hv6).1
+    have gB := (udp6_sound hiU' h6' hB hv6).1
+    rw [isolation_udp6 hd gA] at gB; cases gB
+  · rintro ⟨⟨_, _, _, _, hA⟩, ⟨_, _, _, _, hB⟩⟩
+    exact icmp6_udp6_excl (sig_icmp6 (icmp6_sound hmin hA hv6).1) (sig_udp6 (udp6_sound hiU h6 hB hv6).1)
+  · rintro hv4 hd ⟨⟨_, _, _, _, hA⟩, ⟨_, _, _, _, hB⟩⟩
+    have gA := (tcp_sound hA hv4).1
+    have gB := (sack_sound hB hv4).1
+    rw [isolation_tcp_sack hd gA] at gB; cases gB
 
 /-- Disjoint `AllocPacketID` blocks discharge the `IdsDisjoint` disjunct of `FlowsDistinctTcp` in
     the default (non-Paris) mode: two runs whose probes carry ids `base + ttl` from disjoint blocks
@@ -336,6 +395,13 @@ example : genuineTcp { f11TcpCfg with lport := 40001 } f11TcpSt.1.sent 3 f11Rout
   c11_isolation_tcp (A := f11TcpCfg) (sA := f11TcpSt.1.sent)
     (Or.inr ⟨Or.inr (by decide), Or.inl ⟨rfl, rfl⟩⟩) c11_f11_genuine_only_for_own.1
 
+/-- the TCP/SACK hypothesis is satisfiable in the way the OS provides it: same target, another local
+    port, both strict -/
+example : FlowsDistinctTcpSack f11TcpCfg
+    { localA := f11Local, lport := 40001, target := f11Target, tport := 443, loosen := false, min := 1, max := 30, isn := 7, iack := 0, ts := none }
+    f11TcpSt.1.sent :=
+  Or.inr ⟨Or.inr (by decide), Or.inl ⟨rfl, rfl⟩⟩
+
 example : dropRetry [.retry, .accept ⟨1, [10,0,0,1], 5, false⟩, .retry, .retry] = dropRetry [.accept ⟨1, [10,0,0,1], 5, false⟩] := by
   rfl
 
@@ -353,6 +419,11 @@ example : dropRetry [.retry, .accept ⟨1, [10,0,0,1], 5, false⟩, .retry, .ret
 #print axioms c11_cross_protocol_genuine
 #print axioms c11_cross_protocol_matchers
 #print axioms c11_isolation_udp4_tcp
+#print axioms c11_isolation_icmp6
+#print axioms c11_isolation_udp6
+#print axioms c11_cross_protocol_genuine6
+#print axioms c11_isolation_tcp_sack
+#print axioms c11_not_both_accepted_more
 #print axioms c11_blocks_give_idsDisjoint
 #print axioms c11_flowsDistinctSackB_iff
 #print axioms c11_not_both_accepted_icmp4
